@@ -19,18 +19,18 @@ TYPES_FIX = ['types_fix_f64_ref', 'types_fix_f64_noref', 'types_fix_dec_ref', 't
 TYPES_THOROUGH = ['types_astro_f64_ref', 'types_fix_f64_ref', 'types_fix_f64_noref', 'types_fix_dec_ref', 'types_fix_dec_noref']
 
 PROPS = {
-    'C01': {'level': 'proof', 'quick': ['gen_hasref', 'lemmas_m1_f64'] + TYPES_REF, 'thorough': TYPES_FIX,
+    'C01': {'level': 'proof', 'quick': ['gen_hasref', 'lemmas_m1_f64', 'lemmas_m1_dec'] + TYPES_REF, 'thorough': TYPES_FIX,
             'expect': ['gen_hasref:trait LinearScaledUnit::ratio', 'gen_hasref:trait HasRefUnit::equiv_amount',
                        'gen_hasref:trait HasRefUnit::convert', 'gen_hasref:lemma_C01_L1_requested_unit',
                        'gen_hasref:lemma_C01_L2_same_unit_identity', 'gen_hasref:lemma_C01_L3_equiv_amount_is_converted_amount', 'lemmas_m1_f64:lemma_C01_L4_f64_converted_magnitude']},
-    'C02': {'level': 'proof', 'quick': ['gen_hasref', 'lemmas_m1_f64'] + TYPES_REF, 'thorough': TYPES_FIX,
+    'C02': {'level': 'proof', 'quick': ['gen_hasref', 'lemmas_m1_f64', 'lemmas_m1_dec'] + TYPES_REF, 'thorough': TYPES_FIX,
             'expect': ['gen_hasref:trait HasRefUnit::eq', 'gen_hasref:trait HasRefUnit::partial_cmp',
                        'gen_hasref:lemma_C02_L3_eq_symmetric', 'gen_hasref:lemma_C02_L3_cmp_antisymmetric',
                        'gen_hasref:lemma_C02_L3_cmp_equal_iff_eq', 'gen_hasref:lemma_C02_L1_same_unit_is_amount_comparison', 'lemmas_m1_f64:lemma_C02_L2_f64_physical_order']},
-    'C03': {'level': 'proof', 'quick': ['gen_hasref', 'lemmas_m1_f64'] + TYPES_REF, 'thorough': TYPES_FIX,
+    'C03': {'level': 'proof', 'quick': ['gen_hasref', 'lemmas_m1_f64', 'lemmas_m1_dec'] + TYPES_REF, 'thorough': TYPES_FIX,
             'expect': ['gen_hasref:trait HasRefUnit::add', 'gen_hasref:trait HasRefUnit::sub', 'gen_hasref:trait HasRefUnit::div',
                        'gen_hasref:lemma_C03_same_unit_is_amount_arithmetic', 'gen_hasref:lemma_C03_result_in_left_unit', 'lemmas_m1_f64:lemma_C03_f64_sum_magnitude', 'lemmas_m1_f64:lemma_C03_f64_ratio_magnitude']},
-    'C04': {'level': 'proof', 'quick': ['gen_hasref', 'lemmas_m1_f64'] + TYPES_REF, 'thorough': TYPES_FIX,
+    'C04': {'level': 'proof', 'quick': ['gen_hasref', 'lemmas_m1_f64', 'lemmas_m1_dec'] + TYPES_REF, 'thorough': TYPES_FIX,
             'expect': ['gen_hasref:trait HasRefUnit::_fit', 'lemmas_m1_f64:lemma_C04_f64_product_magnitude_fitted', 'lemmas_m1_f64:lemma_C04_f64_quotient_magnitude_natural',
                        'lemmas_m1_f64:lemma_C04_roundtrip_magnitude']},
     'C05': {'level': 'proof', 'quick': ['gen_hasref'] + TYPES_REF + ['kani_q_f64:ufs', 'kani_q_f64:fit', 'kani_astro_f64:ufs', 'kani_astro_f64:fit'],
